@@ -49,6 +49,9 @@ type PasteArgs struct {
 	// Opts: loader options set on every load of the pair (the load with include, every included project on its own,
 	// the pasted single file).  The cloned options of the included load must behave like the caller's.
 	Opts *PasteOpts `json:"opts,omitempty"`
+	// Links: symbolic links of the tree, root-relative name -> target text (relative targets are relative to the link's
+	// directory, "$ROOT/…" targets are absolute).  Created after the files and directories.
+	Links map[string]string `json:"links,omitempty"`
 }
 
 // PasteOpts are the loader options the paste oracle varies.
@@ -170,6 +173,25 @@ func outcome(p *types.Project, err error, root string) map[string]any {
 	if jerr != nil {
 		return map[string]any{"err": "marshal: " + jerr.Error(), "class": "marshal"}
 	}
+	// the marshaller hides the value of a secret / config whose source is a variable: read it from the project
+	if m, _ := v.(map[string]any); m != nil {
+		put := func(section, name, content string) {
+			if content == "" {
+				return
+			}
+			if sec, _ := m[section].(map[string]any); sec != nil {
+				if e, _ := sec[name].(map[string]any); e != nil {
+					e["#content"] = content
+				}
+			}
+		}
+		for name, s := range p.Secrets {
+			put("secrets", name, s.Content)
+		}
+		for name, c := range p.Configs {
+			put("configs", name, c.Content)
+		}
+	}
 	return map[string]any{"ok": v}
 }
 
@@ -247,6 +269,14 @@ func RealPaste(a PasteArgs) any {
 	if err != nil {
 		return map[string]any{"bad": err.Error()}
 	}
+	for _, l := range SortedKeys(a.Links) {
+		if err := os.MkdirAll(filepath.Dir(filepath.Join(root, l)), 0o755); err != nil {
+			return map[string]any{"bad": err.Error()}
+		}
+		if err := os.Symlink(subst(a.Links[l], Root, root), filepath.Join(root, l)); err != nil {
+			return map[string]any{"bad": err.Error()}
+		}
+	}
 	wd := filepath.Dir(a.Main)
 	pa, errA := loadProject(root, wd, []string{a.Main}, a.Env, a.Opts)
 	outA := outcome(pa, errA, root)
@@ -268,6 +298,10 @@ func RealPaste(a PasteArgs) any {
 	if a.Opts != nil && a.Opts.SkipInterpolation {
 		esc = func(v any) any { return v } // nothing is interpolated: the pasted text is the value
 	}
+	// A config whose source is a variable carries, loaded on its own, `environment` and the value as `content`.  A single
+	// file cannot say that (two sources are a validation error): the pasted file keeps `environment`, and the value the
+	// included project gave it is put back on the loaded project  (secrets travel as the extension `x-#value`).
+	cfgContent := map[string]any{}
 	for i, e := range a.Entries {
 		dict, err := includedOnItsOwn(root, e, a.Env, a.Opts)
 		if err != nil {
@@ -284,6 +318,23 @@ func RealPaste(a PasteArgs) any {
 				to = map[string]any{}
 			}
 			for name, def := range from {
+				if m, ok := def.(map[string]any); ok && kind == "configs" {
+					if _, byVar := m["environment"]; byVar {
+						if c, has := m["content"]; has {
+							cp := map[string]any{}
+							for k, v := range m {
+								if k != "content" {
+									cp[k] = v
+								}
+							}
+							if prev, seen := cfgContent[name]; seen && !reflect.DeepEqual(prev, c) {
+								res["b"] = map[string]any{"err": "configs." + name + " has different values on two sides", "class": "conflict", "entry": i}
+								return res
+							}
+							def, cfgContent[name] = cp, c
+						}
+					}
+				}
 				if prev, dup := to[name]; dup {
 					if !reflect.DeepEqual(prev, esc(def)) {
 						res["b"] = map[string]any{"err": kind + "." + name + " defined differently on two sides", "class": "conflict", "entry": i}
@@ -303,6 +354,17 @@ func RealPaste(a PasteArgs) any {
 	}
 	pb, errB := loadProject(root, wd, []string{pastedName}, a.Env, a.Opts)
 	outB := outcome(pb, errB, root)
+	if ok, _ := outB["ok"].(map[string]any); ok != nil {
+		if cfgs, _ := ok["configs"].(map[string]any); cfgs != nil {
+			for name, c := range cfgContent {
+				if m, _ := cfgs[name].(map[string]any); m != nil {
+					if _, resolvedByParent := m["#content"]; !resolvedByParent {
+						m["#content"] = c
+					}
+				}
+			}
+		}
+	}
 	res["b"] = outB
 	if errA == nil && errB == nil {
 		if d := firstDiff(outA["ok"], outB["ok"], ""); d != "" {
